@@ -91,22 +91,20 @@ end
 
 /-! ## `render.writeObject` and the chunks of `stdOut` -/
 
-theorem sizeOf_toLiquid_le (a : GoVal) : sizeOf a.toLiquid ≤ sizeOf a := by
-  unfold GoVal.toLiquid
-  split <;> simp <;> omega
-
 /-- the element step of `writeObjects` is `writeObject` (`ToLiquid`, one level, then `writeObjectL`) -/
 theorem writeObjects_cons (x : GoVal) (xs : List GoVal) :
     writeObjects (x :: xs) = (writeObjectL x.toLiquid).bind fun a => (writeObjects xs).bind fun b => .ok (a ++ b) := by
+  rw [writeObjectL_toLiquid]
   cases x with
-  | ptr w => cases w <;> simp only [writeObjects, GoVal.toLiquid]
-  | _ => simp only [writeObjects, GoVal.toLiquid]
+  | ptr w => cases w <;> simp only [writeObjects, writeObjectL_ptr_drop]
+  | _ => simp only [writeObjects, writeObjectL_drop]
 
 theorem writeChunksList_cons (x : GoVal) (xs : List GoVal) :
     writeChunksList (x :: xs) = (writeChunksL x.toLiquid).bind fun a => (writeChunksList xs).bind fun b => .ok (a ++ b) := by
+  rw [writeChunksL_toLiquid]
   cases x with
-  | ptr w => cases w <;> simp only [writeChunksList, GoVal.toLiquid]
-  | _ => simp only [writeChunksList, GoVal.toLiquid]
+  | ptr w => cases w <;> simp only [writeChunksList, writeChunksL_ptr_drop]
+  | _ => simp only [writeChunksList, writeChunksL_drop]
 
 mutual
 theorem writeObjectL_noPanic : ∀ v : GoVal, NoPanicRes (writeObjectL v)
@@ -119,16 +117,20 @@ theorem writeObjectL_noPanic : ∀ v : GoVal, NoPanicRes (writeObjectL v)
   | .slice _ xs => by rw [writeObjectL]; exact writeObjects_noPanic xs
   | .array _ xs => by rw [writeObjectL]; exact writeObjects_noPanic xs
   | .map _ _ _ => by simp only [writeObjectL]; exact sprint_noPanic _
-  | .mapSlice kvs => by rw [writeObjectL]; exact NoPanicRes.bind (sprintItems_noPanic kvs) (fun _ => trivial)
+  | .mapSlice kvs => by rw [writeObjectL]; exact NoPanicRes.bind (sprintItems_noPanic _) (fun _ => trivial)
   | .keyedMap _ => by simp only [writeObjectL]; exact sprint_noPanic _
   | .range _ _ => by simp only [writeObjectL]; exact sprint_noPanic _
-  | .ptr v => by cases v <;> simp only [writeObjectL] <;> first | trivial | exact sprint_noPanic _
+  | .ptr (.drop w) => by rw [writeObjectL_ptr_drop]; exact writeObjectL_noPanic w
+  | .ptr .nil | .ptr (.bool _) | .ptr (.int _ _) | .ptr (.flt _ _) | .ptr (.str _) | .ptr (.bytes _)
+  | .ptr (.slice _ _) | .ptr (.array _ _) | .ptr (.map _ _ _) | .ptr (.mapSlice _) | .ptr (.keyedMap _)
+  | .ptr (.range _ _) | .ptr (.ptr _) | .ptr .nilPtr | .ptr (.struct _) | .ptr (.time _) => by
+    simp only [writeObjectL] <;> first | trivial | exact sprint_noPanic _
   | .nilPtr => by rw [writeObjectL]; trivial
-  | .drop _ => by simp only [writeObjectL]; exact sprint_noPanic _
+  | .drop w => by rw [writeObjectL_drop]; exact writeObjectL_noPanic w
   | .struct _ => by simp only [writeObjectL]; exact sprint_noPanic _
   | .time u => by rw [writeObjectL]; exact timeObjectText_noPanic u
 termination_by v => sizeOf v
-decreasing_by all_goals simp_wf; omega
+decreasing_by all_goals (simp_wf; try omega)
 theorem writeObjects_noPanic : ∀ xs : List GoVal, NoPanicRes (writeObjects xs)
   | [] => by rw [writeObjects]; trivial
   | x :: xs => by
@@ -148,12 +150,17 @@ theorem writeChunksL_noPanic : ∀ v : GoVal, NoPanicRes (writeChunksL v)
   | .slice _ xs => by rw [writeChunksL]; exact writeChunksList_noPanic xs
   | .array _ xs => by rw [writeChunksL]; exact writeChunksList_noPanic xs
   | .nil => by rw [writeChunksL]; trivial
-  | .mapSlice kvs => by rw [writeChunksL]; exact sprintItems_noPanic kvs
-  | .bool _ | .int _ _ | .flt _ _ | .str _ | .bytes _ | .map _ _ _ | .keyedMap _ | .range _ _ | .ptr _
-  | .nilPtr | .drop _ | .struct _ | .time _ => by
+  | .mapSlice kvs => by rw [writeChunksL]; exact sprintItems_noPanic _
+  | .drop w => by rw [writeChunksL_drop]; exact writeChunksL_noPanic w
+  | .ptr (.drop w) => by rw [writeChunksL_ptr_drop]; exact writeChunksL_noPanic w
+  | .ptr .nil | .ptr (.bool _) | .ptr (.int _ _) | .ptr (.flt _ _) | .ptr (.str _) | .ptr (.bytes _)
+  | .ptr (.slice _ _) | .ptr (.array _ _) | .ptr (.map _ _ _) | .ptr (.mapSlice _) | .ptr (.keyedMap _)
+  | .ptr (.range _ _) | .ptr (.ptr _) | .ptr .nilPtr | .ptr (.struct _) | .ptr (.time _)
+  | .bool _ | .int _ _ | .flt _ _ | .str _ | .bytes _ | .map _ _ _ | .keyedMap _ | .range _ _
+  | .nilPtr | .struct _ | .time _ => by
     simp only [writeChunksL]; exact NoPanicRes.bind (writeObjectL_noPanic _) (fun _ => trivial)
 termination_by v => sizeOf v
-decreasing_by all_goals simp_wf; omega
+decreasing_by all_goals (simp_wf; try omega)
 theorem writeChunksList_noPanic : ∀ xs : List GoVal, NoPanicRes (writeChunksList xs)
   | [] => by rw [writeChunksList]; trivial
   | x :: xs => by
